@@ -19,7 +19,8 @@ VARIABLE prog
 Sst(k, v) == [op |-> "SSTORE", k |-> k, v |-> v]
 Lg(t) == [op |-> "LOG", t |-> t]
 Cl(kind, to, val, gas) == [op |-> "CALL", kind |-> kind, to |-> to, val |-> val, gas |-> gas]
-Cr(init) == [op |-> "CREATE", init |-> init]
+Cr(init) == [op |-> "CREATE", kind |-> "CREATE", init |-> init, val |-> 0]
+Crv(kind, init, val) == [op |-> "CREATE", kind |-> kind, init |-> init, val |-> val]
 Sd(to) == [op |-> "SELFDESTRUCT", to |-> to]
 T(op) == [op |-> op]
 Kinds == {"CALL", "CALLCODE", "DELEGATECALL", "STATICCALL"}
@@ -48,6 +49,17 @@ Prof ==
                                  \cup {Cl(k, "B", 0, "all") : k \in {"CALL", "DELEGATECALL", "STATICCALL"}}, len |-> 3],
                 B |-> [steps |-> {Cr(<<Lg(3), T("RETURN")>>), Sst(1, 2), T("REVERT")}, len |-> 2],
                 C |-> NoSteps],
+    \* creations carrying value: the endowment moves inside the creation's snapshot (a failing constructor gives it back),
+    \* creations the creator cannot afford, CREATE and CREATE2, creators running on a delegated context
+    createv |-> [A |-> [steps |-> {Sst(1, 1), T("REVERT"), Cl("CALL", "B", 1, "all"), Cl("DELEGATECALL", "B", 0, "all"),
+                                   Cr(<<Sst(1, 7), Lg(3)>>)}
+                                  \cup {Crv("CREATE", i, 1) : i \in {<<Sst(1, 7), Lg(3)>>, <<Lg(3), T("REVERT")>>,
+                                                                     <<Sst(1, 7), T("INVALID")>>, <<Lg(3), Sd("X")>>}}
+                                  \cup {Crv("CREATE2", i, 1) : i \in {<<Lg(3), T("REVERT")>>, <<Sst(1, 7), T("RETURN")>>}},
+                        len |-> IF Deep THEN 3 ELSE 2],
+                 B |-> [steps |-> {Crv("CREATE", <<Lg(3), T("REVERT")>>, 1), Crv("CREATE", <<Sst(1, 7)>>, 1), Sst(1, 2), T("REVERT")},
+                        len |-> 2],
+                 C |-> NoSteps],
     \* SELFDESTRUCT: beneficiaries, use after destruction, destruction in reverted / delegated frames
     destruct |-> [A |-> [steps |-> {Sst(1, 1), Lg(1), T("REVERT"), Sd("B"), Sd("SELF")}
                                    \cup {Cl(k, "B", v, "all") : k \in {"CALL", "DELEGATECALL", "CALLCODE"}, v \in {0}}
@@ -84,7 +96,8 @@ Fixed ==
      bal |-> [A |-> 0, B |-> 0, C |-> 0]] }
 
 P == IF Profile = "fixed" THEN [c \in Contracts |-> NoSteps] ELSE Prof[Profile]
-Bals == IF Profile \in {"calls2", "depth3", "destruct", "mix"}
+Bals == IF Profile = "createv" THEN {[A |-> 1, B |-> 0, C |-> 0], [A |-> 1, B |-> 1, C |-> 0]}
+        ELSE IF Profile \in {"calls2", "depth3", "destruct", "mix"}
         THEN {[A |-> 1, B |-> 0, C |-> 0], [A |-> 0, B |-> 1, C |-> 0]} ELSE {[A |-> 1, B |-> 0, C |-> 0]}
 
 Rank(c) == CASE c = "A" -> 1 [] c = "B" -> 2 [] c = "C" -> 3
